@@ -45,6 +45,11 @@ CLAIMS = {
         text="Exploration. Object sets with duplicates, coincident bounds, flat boxes, single elements, grid-aligned coordinates (exact ties) x ray/first-hit/ball/segment/box/triangle queries against seven index builds (2D and 3D), mesh distance fields vs the exhaustive minimum, CoordTree nearest/k-nearest/ball/contains/slice vs scan (exact), grouping and BVH construction as pointer-multiset permutations, render3d BVH/Joined/Filtered objects vs a scan.",
         note="Trusted: the per-object primitives (checked separately in C07/C06), the harness re-derivation of the bounding-box prefilters. In the generic-float regime a hit whose own box passes the prefilter only within 1e-9 relative may go either way; on grid inputs comparisons are exact.",
         design="3/C08"),
+    "C11": dict(
+        technique="property-based testing (rapid): library diagnostics vs exhaustive re-computation of their definitions; repair and nesting against constructed ground truth",
+        text="Exploration. Abstract triangle soups (annuli, Moebius bands, tetrahedra plus random faces, signed-zero twins), manifold meshes (nests to depth 5, marching cubes of lattices and CSG) and damaged variants (faces removed/duplicated/flipped, vertices merged, per-face vertex copies jittered), 2D and 3D: NeedsRepair, SingularVertices, InconsistentEdges, Orientable, Manifold, InconsistentVertices equal the harness's edge-count / fan flood-fill / directed-edge definitions exactly; Repair(eps) on the jitter class restores an isomorphic mesh; RepairNormals restores the even-odd orientation and reports the number of flipped faces; RepairNormalsMajority flips the minority of each group; MeshToHierarchy keeps every face once, nests each component under its innermost container and Contains equals the parity of enclosing components.",
+        note="Trusted: harness definitions (union-find, flood fill), constructed nesting cross-checked by winding numbers. No degenerate faces; Orientable only when every edge has <= 2 faces; hierarchy inputs re-orient whole loops only in 2D (consistent per-loop orientation is an implicit precondition of the 2D walker).",
+        design="3/C11"),
     "C14": dict(
         technique="property-based testing (rapid) + exhaustive enumeration of small bitmap outlines with a cover/disjointness/area validity oracle",
         text="Exploration. Simple polygons by construction (convex, star, zigzag, monotone chains, combs, spirals; colinear runs; any start vertex, direction and rigid placement), regions with holes and nested islands, planar 3D faces in random planes, OFF files with polygonal faces, outlines of all 3x3 and 4x4 bitmaps: output vertices are input vertices, proper triangles lie inside the region, do not overlap, sum to the shoelace area and are clockwise where documented; ProfileMesh is a closed oriented manifold with volume = area x height.",
